@@ -187,7 +187,42 @@ func TestVerifBounded_C07_Memberlist(t *testing.T) {
 		}
 		_ = services.StopAndAwaitTerminated(ctx, mkv)
 	}
-	fmt.Printf("BOUNDED-CASES name=C07_Memberlist n=%d distinct=%d bound=single-node memberlist KV: nested CAS between read and write (absent and existing key), 3 rounds of 8 goroutines x 15 increments, declining/failing function\n", cases, cases)
+	// (4) the caller's context ends while its function runs (cancel, deadline): whatever the call reports, an error
+	//     means the stored value did not change, and success means the function was applied exactly once
+	for _, how := range []string{"cancel", "deadline"} {
+		for _, existing := range []bool{false, true} {
+			cases++
+			mkv, cl := verifNewKV(t)
+			before := 0
+			if existing {
+				_ = cl.CAS(ctx, "k", verifInc)
+				before = 1
+			}
+			cctx, cancel := context.WithCancel(ctx)
+			if how == "deadline" {
+				cctx, cancel = context.WithTimeout(ctx, 20*time.Millisecond)
+			}
+			err := cl.CAS(cctx, "k", func(in interface{}) (interface{}, bool, error) {
+				if how == "cancel" {
+					cancel()
+				} else {
+					<-cctx.Done()
+				}
+				return verifInc(in)
+			})
+			cancel()
+			v, _ := cl.Get(ctx, "k")
+			after := 0
+			if v != nil {
+				after = v.(*verifCounter).N
+			}
+			if (err != nil && after != before) || (err == nil && after != before+1) {
+				report(fmt.Sprintf("c07-memberlist-ctx:%s:existing=%v", how, existing), fmt.Sprintf("CAS reported err=%v, stored counter went from %d to %d", err, before, after))
+			}
+			_ = services.StopAndAwaitTerminated(ctx, mkv)
+		}
+	}
+	fmt.Printf("BOUNDED-CASES name=C07_Memberlist n=%d distinct=%d bound=single-node memberlist KV: nested CAS between read and write (absent and existing key), 3 rounds of 8 goroutines x 15 increments, declining/failing function, caller context cancelled / expired inside the function\n", cases, cases)
 	if fails > 0 {
 		t.Fatalf("%d mismatches", fails)
 	}
